@@ -48,7 +48,7 @@ type pState struct {
 	delayRC          <-chan struct{}
 	manualRC         <-chan interface{}
 	shutdownNotifier chan<- interface{}
-	queueBars        map[*Bar]*Bar
+	queueBars        map[*Bar][]*Bar
 	output           io.Writer
 	debugOut         io.Writer
 	uwg              *sync.WaitGroup
@@ -75,7 +75,7 @@ func NewWithContext(ctx context.Context, options ...ContainerOption) *Progress {
 		renderReq:   make(chan time.Time),
 		popPriority: math.MinInt32,
 		refreshRate: defaultRefreshRate,
-		queueBars:   make(map[*Bar]*Bar),
+		queueBars:   make(map[*Bar][]*Bar),
 		output:      os.Stdout,
 		debugOut:    io.Discard,
 	}
@@ -161,9 +161,13 @@ func (p *Progress) Add(total int64, filler BarFiller, options ...BarOption) (*Ba
 	case p.operateState <- func(ps *pState) {
 		bs := ps.makeBarState(total, filler, options...)
 		bar := newBar(ps.ctx, p, bs)
-		if bs.waitBar != nil {
-			ps.queueBars[bs.waitBar] = bar
+		if wb := bs.waitBar; wb != nil && !wb.dropped {
+			ps.queueBars[wb] = append(ps.queueBars[wb], bar)
 		} else {
+			if wb != nil {
+				// bar to wait for is gone already, take its place right away
+				bar.priority = wb.priority
+			}
 			ps.hm.push(bar, true)
 		}
 		ps.idCount++
@@ -386,6 +390,16 @@ func (s *pState) flush(cw *cwriter.Writer, height int, iter <-chan *Bar) error {
 		}
 	}()
 
+	// bar which isn't pushed back hands over its place to the queued ones, if any
+	drop := func(b *Bar) {
+		b.dropped = true
+		for _, qb := range s.queueBars[b] {
+			qb.priority = b.priority
+			survivors = append(survivors, survivor{qb, true})
+		}
+		delete(s.queueBars, b)
+	}
+
 	for b := range iter {
 		frame := <-b.frameCh
 		vhook("flush.bar", b, frame.shutdown, verifErrFlag(frame.err))
@@ -407,25 +421,31 @@ func (s *pState) flush(cw *cwriter.Writer, height int, iter <-chan *Bar) error {
 		switch frame.shutdown {
 		case 1:
 			b.cancel()
-			if qb, ok := s.queueBars[b]; ok {
-				delete(s.queueBars, b)
-				qb.priority = b.priority
-				survivors = append(survivors, survivor{qb, true})
+			if len(s.queueBars[b]) != 0 {
+				drop(b)
 			} else if s.popCompleted && !frame.noPop {
 				b.priority = s.popPriority
 				s.popPriority++
 				survivors = append(survivors, survivor{b, false})
 			} else if !frame.rmOnComplete {
 				survivors = append(survivors, survivor{b, false})
+			} else {
+				drop(b)
 			}
 		case 2:
 			if s.popCompleted && !frame.noPop {
 				popCount += usedRows
+				drop(b)
 				continue
 			}
 			fallthrough
 		default:
-			survivors = append(survivors, survivor{b, false})
+			if frame.shutdown != 0 && len(s.queueBars[b]) != 0 {
+				// bars queued after bar's cancellation
+				drop(b)
+			} else {
+				survivors = append(survivors, survivor{b, false})
+			}
 		}
 	}
 
